@@ -188,8 +188,19 @@ def run_case(spec):
             add("power3", lambda: n2**3, lambda m: m[1] @ m[1] @ m[1], 3 * d2)
         add("as_expr_roundtrip", lambda: NOF.from_expr(n1.as_expr(), ops), lambda m: m[0], d1)
         add("mixed_with_expr", lambda: n1 * e2, lambda m: m[0] @ m[1], d1 + d2)
+        # right operand a plain expression that SymPy regards as a commuting scalar although it depends on a number
+        # operator (Abs, sign): it must still be commuted through the unmatched operators of the left operand
+        from pymablock.number_ordered_form import NumberOperator as _Nop
+
+        _n = _Nop(ops[int(rng.integers(len(ops)))])
+        _k = int(rng.integers(0, 4))
+        gfun = [sympy.Abs(_n - _k), sympy.sign(_n - _k) + 2, sympy.Rational(3, 2) * sympy.Abs(_n - _k)][int(rng.integers(3))]
+        gmat = {}
+        add("mixed_with_scalar_function", lambda: n1 * gfun, lambda m: m[0] @ gmat.setdefault(id(m), (M if m is mats else Mb_holder[0]).expr(gfun)), d1)
+        add("scalar_function_assoc", lambda: (n1 * gfun) * n3, lambda m: m[0] @ gmat.setdefault(id(m), (M if m is mats else Mb_holder[0]).expr(gfun)) @ m[2], d1 + d3)
         mats = [M.expr(e1), M.expr(e2), M.expr(e3)]
         mats_big = None
+        Mb_holder = [None]
         for label, fn_nof, fn_mat, deg in results:
             try:
                 x = fn_nof()
@@ -200,7 +211,11 @@ def run_case(spec):
             if len(cols) == 0:
                 counters["no_safe_columns"] += 1
                 continue
-            got = M.nof(x)
+            try:
+                got = M.nof(x)
+            except Exception as ex:  # noqa: BLE001
+                raise Violation(f"{label}: the result is not a well-formed NumberOrderedForm (its denotation raised {type(ex).__name__}: {str(ex)[:200]}) for "
+                                f"x = {e1} | y = {e2} | z = {e3}; result terms = {dict(x.terms) if hasattr(x, 'terms') else x}")
             scale = max(1.0, float(np.abs(want[:, cols]).max(initial=0)))
             err = float(np.abs(got - want)[:, cols].max(initial=0))
             counters["comparisons"] += 1
@@ -208,6 +223,7 @@ def run_case(spec):
             if not np.isfinite(err) or err > 1e-8 * scale:
                 # double cut-off rule
                 Mb = model(3)
+                Mb_holder[0] = Mb
                 if mats_big is None:
                     mats_big = [Mb.expr(e1), Mb.expr(e2), Mb.expr(e3)]
                 wb = fn_mat(mats_big)
